@@ -6,7 +6,7 @@
 From Coq Require Import List ZArith Bool Lia String Ascii QArith Qabs.
 From SDC Require Import Scalars.Lex Scalars.Lex_Proofs Scalars.Timestamp Scalars.Timestamp_Proofs
   Scalars.Decimal Scalars.Decimal_Proofs Scalars.Decimal_Lex_Proofs Scalars.Duration Scalars.Duration_Proofs
-  Scalars.DateTime Scalars.DateTime_Proofs Scalars.Duration_Float_Proofs.
+  Scalars.DateTime Scalars.DateTime_Proofs Scalars.Duration_Float_Proofs Scalars.DecimalFloat Scalars.DecimalFloat_Proofs.
 Import ListNotations.
 Open Scope Z_scope.
 
@@ -86,6 +86,21 @@ Theorem C18_decimal_old_cap_refuted :
     exists d', dec_parse (surgery_old (format_f d)) = Some d' /\ dec_value_eqb d' d = false.
 Proof. exact dec_old_cap_refuted_lemma. Qed.
 Print Assumptions C18_decimal_old_cap_refuted.
+
+(* float arguments (DecimalConverter._float_to_xml: round(x, n) and the 'f' format with n = 1 / 2 / 3 fraction digits for
+   |x| >= 100 / >= 10 / below, both modelled exactly on the binary64 |x| = a / b): for EVERY non-negative binary64, in
+   particular above 1e16 where str(float) would use an exponent, only digits, '.' and '-' are written *)
+Theorem C18_decimal_float_no_exponent : forall neg a b, 0 <= a -> 0 < b ->
+  forallb plain_char (float_to_xml_l neg a b) = true.
+Proof. exact float_no_exponent. Qed.
+Print Assumptions C18_decimal_float_no_exponent.
+
+(* the documented rounding: the printed count of 10^-n units is within half a unit of y = round(x, n) *)
+Theorem C18_decimal_float_rounding : forall a b, 0 <= a -> 0 < b ->
+  let n := fdigits a b in let y := round_nd a b n in
+  0 < snd y /\ - snd y <= 2 * (float_units a b * snd y - fst y * 10 ^ n) <= snd y.
+Proof. exact float_units_of_round. Qed.
+Print Assumptions C18_decimal_float_rounding.
 
 (* ------------------------------------------------------------------ integers *)
 Theorem C18_int_py_xml_py : forall n, int_parse (print_Z n) = Some n.
@@ -208,5 +223,7 @@ Example C18_nonvacuous_long_fraction :
   check_duration_1us (chars "PT2147483647.9999999S") = true /\
   dt_second_float "2020-05-06T10:11:59.999999999999999" = Some max_second /\
   dt_second_float_old "2020-05-06T10:11:59.999999999999999" = None /\
-  option_map (fr_eqb (rnd53 1201 100)) (dt_second_float "2020-05-06T10:11:12.0100000") = Some true.
+  option_map (fr_eqb (rnd53 1201 100)) (dt_second_float "2020-05-06T10:11:12.0100000") = Some true /\
+  decf_to_xml false (10 ^ 17) 1 = "100000000000000000"%string /\ decf_to_xml true 25 1000 = "-0.025"%string /\
+  decf_to_xml false 421 10 = "42.1"%string /\ decf_to_xml false 9007199254740993 8 = "1125899906842624"%string.
 Proof. vm_compute. repeat split; congruence. Qed.
